@@ -65,13 +65,32 @@ class Builder:
         if kind == 'ref':
             return made[spec[1] % len(made)] if made else self.fresh_int()
         if kind == 'strobj':
+            how = spec[2] if len(spec) > 2 else 'plain'
+
+            class Text(str):
+                # what __str__ may return: a str, or an instance of a subclass of str
+                pass
+
+            class OwnSlices(str):
+                def __getitem__(self, item):
+                    return self
+
             class LongStr:
                 def __init__(self, n):
                     self.n = n
 
                 def __str__(self):
-                    return 'S' * self.n
+                    text = 'S' * self.n
+                    return {'plain': str, 'sub': Text, 'own_slices': OwnSlices}[how](text)
             return LongStr(spec[1])
+        if kind == 'strsub':
+            class Label(str):
+                pass
+
+            class Whole(str):
+                def __getitem__(self, item):
+                    return self
+            return (Whole if spec[2] else Label)('L' * spec[1])
         raise ValueError(kind)
 
 
@@ -97,6 +116,9 @@ def spec_strategy(big):
         st.just(['cyc']), st.just(['selfcyc']),
         st.tuples(st.just('ref'), st.integers(0, 10)).map(list),
         st.tuples(st.just('strobj'), st.sampled_from([5, 100, 3000])).map(list),
+        st.tuples(st.just('strobj'), st.sampled_from([5, 100, 3000]),
+                  st.sampled_from(['sub', 'own_slices'])).map(list),
+        st.tuples(st.just('strsub'), st.sampled_from([0, 5, 100, 3000]), st.booleans()).map(list),
     )
 
 
@@ -209,6 +231,9 @@ class C05(Prop):
             'jump_clock': st.integers(0, 9).map(lambda x: x == 0),
             # a deferred snapshot: completed by the return event with the returned value captured into the same table
             'capture': st.sampled_from([None, None, 'small', 'big', 'big']),
+            # the fields of the snapshot's log message are evaluated and recorded on the same snapshot
+            'log_fields': st.one_of(st.just([]), st.lists(st.sampled_from(
+                ['list(big)', "'q' * 90", 'tuple(big)', 'v0', '[[k] for k in big]', 'str(big)']), max_size=3)),
         })
 
     def run_case(self, recipe):
@@ -226,6 +251,9 @@ class C05(Prop):
         cfg = dict(lim)
         cfg.update({'watches': list(recipe['watches']), 'frame_type': recipe['frame_type'], 'fire_count': '-1',
                     'fire_period': '0'})
+        if recipe.get('log_fields'):
+            cfg['log_msg'] = 'm ' + ' '.join('{%s}' % f for f in recipe['log_fields'])
+            out.cls('log_fields')
         if recipe.get('capture'):
             cfg['stage'] = 'line_capture'
             out.cls('deferred_capture')
@@ -258,7 +286,7 @@ class C05(Prop):
         if len(depths) > limits.max_variables:
             out.cls('over_variables')
         if any(type(o) is str and len(o) > limits.max_string_length for _, o in depths.values()) or \
-                any(s[0] == 'strobj' and s[1] > limits.max_string_length for s in recipe['locals']):
+                any(s[0] in ('strobj', 'strsub') and s[1] > limits.max_string_length for s in recipe['locals']):
             out.cls('over_string')
         if any(type(o) in oracle.LISTLIKE and len(o) > limits.max_collection_size for _, o in depths.values()):
             out.cls('over_collection')
@@ -297,7 +325,7 @@ class C05(Prop):
             if var is None or oracle.is_container(obj):
                 continue
             try:
-                full = str(obj)
+                full = str.__str__(str(obj))       # the characters, whatever class carries them
             except BaseException:      # noqa
                 continue
             if var.value != full[:limits.max_string_length]:
